@@ -15,7 +15,10 @@ import (
 
 	sdkmath "cosmossdk.io/math"
 	sdk "github.com/cosmos/cosmos-sdk/types"
+	bankkeeper "github.com/cosmos/cosmos-sdk/x/bank/keeper"
 	banktypes "github.com/cosmos/cosmos-sdk/x/bank/types"
+	tfbindings "github.com/palomachain/paloma/v2/x/tokenfactory/bindings"
+	tfbtypes "github.com/palomachain/paloma/v2/x/tokenfactory/bindings/types"
 	tftypes "github.com/palomachain/paloma/v2/x/tokenfactory/types"
 	vtypes "github.com/palomachain/paloma/v2/x/valset/types"
 	"github.com/palomachain/paloma/v2/zzverif/explore"
@@ -119,7 +122,7 @@ func run(r *report.Run, shard, nshards int, replayFile string) {
 			e.baseB[a.Name][d] = w.Balance(w.Root, a.Addr, d)
 		}
 	}
-	r.Rule = "BFS over Create/Mint/Burn/ChangeAdmin/SetDenomMetadata by X,Y,Z on factory/X/a, factory/Y/a, factory/X/a/b, ugrain, a 2-part factory string and an ibc denom; every transition is a signed tx through the real ante chain and tokenfactory msg server; a state is distinct by (admins, supplies, balances, metadata)"
+	r.Rule = "BFS over Create/Mint/Burn/ChangeAdmin/SetDenomMetadata by X,Y,Z (signed txs) and by X as a contract through the tokenfactory wasm bindings (SetMetadata with a base equal to / different from the authorised denom, Mint to itself or a third party, ChangeAdmin) on factory/X/a, factory/Y/a, factory/X/a/b, ugrain, a 2-part factory string and an ibc denom; every transition is a signed tx through the real ante chain and tokenfactory msg server; a state is distinct by (admins, supplies, balances, metadata)"
 	r.Assumptions = []string{
 		"tx atomicity re-implemented as in baseapp.runTx (ante cache, msg cache)",
 		"amount alphabet {5 mint, 3 burn}; larger amounts exercise the same code path (sdk.Int arithmetic in x/bank)",
@@ -182,6 +185,16 @@ func (e *env) invariant(n *explore.Node) *explore.Fail {
 				return explore.Failf("balance:"+kind(d), "balance of %s in %s is %s, reference %s", a.Name, d, got, want)
 			}
 		}
+		if bm, found := w.App.BankKeeper.GetDenomMetaData(n.Ctx, d); kind(d) == "factory" {
+			_, exists := g.Admin[d]
+			if found != exists {
+				return explore.Failf("metadata-existence", "bank metadata of %s present=%v but the factory created it=%v", d, found, exists)
+			}
+			want := g.Disp[d]
+			if want != "" && bm.Name != "n-"+want || want == "" && strings.HasPrefix(bm.Name, "n-") {
+				return explore.Failf("metadata-mismatch", "metadata name of %s is %q, reference setter %q", d, bm.Name, want)
+			}
+		}
 		md, err := w.App.TokenFactoryKeeper.GetAuthorityMetadata(n.Ctx, d)
 		adm, exists := g.Admin[d]
 		if err != nil {
@@ -190,6 +203,9 @@ func (e *env) invariant(n *explore.Node) *explore.Fail {
 		if exists && md.Admin != adm || !exists && md.Admin != "" {
 			return explore.Failf("admin:"+kind(d), "admin of %s is %q, reference %q (exists=%v)", d, md.Admin, adm, exists)
 		}
+	}
+	if _, found := w.App.BankKeeper.GetDenomMetaData(n.Ctx, "factory/"+e.actors[1].Addr.String()+"/new"); found {
+		return explore.Failf("metadata-planted", "bank metadata exists for factory/Y/new, which nobody created")
 	}
 	return nil
 }
@@ -349,7 +365,110 @@ func (e *env) ops(n *explore.Node) []explore.Op {
 			}})
 		}
 	}
+	// the same operations as a CosmWasm contract would dispatch them (tokenfactory bindings; the
+	// contract is X's address, so it shares X's namespace). wasmd commits a dispatch only on success.
+	c := e.actors[0]
+	bank := w.App.BankKeeper.(bankkeeper.BaseKeeper)
+	tfk := w.App.TokenFactoryKeeper
+	messenger := tfbindings.NewMessenger(&bank, &tfk)
+	dispatch := func(ctx *sdk.Context, m tfbtypes.Message) (ok bool, f *explore.Fail) {
+		before := w.StoreDigest(*ctx, "tokenfactory") + supplies(e, *ctx) + metas(e, *ctx)
+		cc, write := ctx.CacheContext()
+		var err error
+		func() {
+			defer func() {
+				if r := recover(); r != nil {
+					err = fmt.Errorf("panic: %v", r)
+				}
+			}()
+			_, _, _, err = messenger.DispatchMsg(cc, c.Addr, "", m)
+		}()
+		if err != nil {
+			if after := w.StoreDigest(*ctx, "tokenfactory") + supplies(e, *ctx) + metas(e, *ctx); after != before {
+				return false, explore.Failf("failed-dispatch-changed-state", "failed contract dispatch (%v) changed state", err)
+			}
+			return false, nil
+		}
+		write()
+		return true, nil
+	}
+	metaTargets := append(append([]string{}, e.denoms[:3]...), "factory/"+e.actors[1].Addr.String()+"/new")
+	for _, d := range e.denoms[:3] {
+		for _, base := range append([]string{""}, metaTargets...) {
+			d, base := d, base
+			ops = append(ops, explore.Op{Label: fmt.Sprintf("CSetMetadata(%s,base=%s)", short(e, d), short(e, base)), Do: func(ctx *sdk.Context, gg explore.Ghost) *explore.Fail {
+				g := gg.(*ghost)
+				target := base
+				if target == "" {
+					target = d
+				}
+				ok, f := dispatch(ctx, tfbtypes.Message{SetMetadata: &tfbtypes.SetMetadata{Denom: d, Metadata: tfbtypes.Metadata{Base: base, Display: target, Name: "n-c" + c.Name, Symbol: "SC",
+					DenomUnits: []tfbtypes.DenomUnit{{Denom: target, Exponent: 0}}}}})
+				if f != nil {
+					return f
+				}
+				if ok {
+					adm, exists := g.Admin[target]
+					if !exists {
+						return explore.Failf("setmetadata-nonfactory:binding", "contract %s set metadata of %s which the factory never created", c.Name, target)
+					}
+					if adm != c.Addr.String() {
+						return explore.Failf("setmetadata-nonadmin:binding", "contract %s set metadata of %s but its admin is %q", c.Name, target, adm)
+					}
+					g.Disp[target] = "c" + c.Name
+				}
+				return nil
+			}})
+		}
+		for _, to := range []*world.Actor{e.actors[0], e.actors[2]} {
+			d, to := d, to
+			ops = append(ops, explore.Op{Label: fmt.Sprintf("CMint(%s,to=%s)", short(e, d), to.Name), Do: func(ctx *sdk.Context, gg explore.Ghost) *explore.Fail {
+				g := gg.(*ghost)
+				amt := sdkmath.NewInt(5)
+				ok, f := dispatch(ctx, tfbtypes.Message{MintTokens: &tfbtypes.MintTokens{Denom: d, Amount: amt, MintToAddress: to.Addr.String()}})
+				if f != nil {
+					return f
+				}
+				if ok {
+					adm, exists := g.Admin[d]
+					if !exists || adm != c.Addr.String() {
+						return explore.Failf("mint-nonadmin:binding", "contract %s minted %s (exists=%v, admin %q)", c.Name, d, exists, adm)
+					}
+					e.sup(g, d).Add(e.sup(g, d), amt.BigInt())
+					// minted to the admin (contract) and forwarded by a bank send from its own balance
+					e.bal(g, to.Name, d).Add(e.bal(g, to.Name, d), amt.BigInt())
+				}
+				return nil
+			}})
+		}
+		d := d
+		ops = append(ops, explore.Op{Label: fmt.Sprintf("CChangeAdmin(%s,Y)", short(e, d)), Do: func(ctx *sdk.Context, gg explore.Ghost) *explore.Fail {
+			g := gg.(*ghost)
+			ok, f := dispatch(ctx, tfbtypes.Message{ChangeAdmin: &tfbtypes.ChangeAdmin{Denom: d, NewAdminAddress: e.actors[1].Addr.String()}})
+			if f != nil {
+				return f
+			}
+			if ok {
+				adm, exists := g.Admin[d]
+				if !exists || adm != c.Addr.String() {
+					return explore.Failf("changeadmin-nonadmin:binding", "contract %s changed the admin of %s (exists=%v, admin %q)", c.Name, d, exists, adm)
+				}
+				g.Admin[d] = e.actors[1].Addr.String()
+			}
+			return nil
+		}})
+	}
 	return ops
+}
+
+// metas digests the bank metadata of every denom of interest (incl. a never-created one).
+func metas(e *env, ctx sdk.Context) string {
+	var sb strings.Builder
+	for _, d := range append(append([]string{}, e.denoms...), "factory/"+e.actors[1].Addr.String()+"/new") {
+		md, found := e.w.App.BankKeeper.GetDenomMetaData(ctx, d)
+		sb.WriteString(fmt.Sprintf("%v:%s:%s;", found, md.Name, md.Symbol))
+	}
+	return sb.String()
 }
 
 func supplies(e *env, ctx sdk.Context) string {
